@@ -21,6 +21,7 @@
 #include "clang/AST/RecursiveASTVisitor.h"
 #include "clang/AST/StmtCXX.h"
 #include "clang/Frontend/CompilerInstance.h"
+#include "clang/Lex/Lexer.h"
 #include "clang/Frontend/FrontendAction.h"
 #include "clang/Tooling/CommonOptionsParser.h"
 #include "clang/Tooling/Tooling.h"
@@ -362,6 +363,15 @@ public:
     void loc(llvm::json::OStream &J, SourceLocation L) {
         J.attribute("l", (int64_t)lineOf(L));
         J.attribute("col", (int64_t)colOf(L));
+        if (L.isMacroID()) {
+            // name of the macro as written at the expansion point (WIFEXITED, EXIT_FAILURE, ...)
+            SourceLocation E = SM.getExpansionLoc(L);
+            llvm::SmallString<32> buf;
+            bool invalid = false;
+            StringRef t = Lexer::getSpelling(E, buf, SM, Ctx.getLangOpts(), &invalid);
+            if (!invalid && !t.empty() && t.size() < 48)
+                J.attribute("mac", t);
+        }
     }
 
     void walkVarDecl(llvm::json::OStream &J, const VarDecl *V) {
